@@ -46,6 +46,7 @@ type C10Case struct {
 	Yields   [][]int   `json:"yields,omitempty"` // lin mode: runtime.Gosched() calls before each op
 	Reps     int       `json:"reps,omitempty"`   // executions of the same case (schedules differ)
 	NilKey   bool      `json:"nilkey,omitempty"` // the first shared key ("s0" / "a") is the untyped nil interface
+	Setup    []LRUOp   `json:"setup,omitempty"`  // lin mode: sequential prefix executed before the goroutines start (e.g. fills the cache)
 }
 
 // gokey maps a key name to the Go key handed to the cache.
@@ -420,6 +421,36 @@ func runC10Lin(c *C10Case) ([]porcupine.Operation, string) {
 	}
 	var clock int64
 	G := len(c.Streams)
+	// do executes one operation and records it with invoke / return stamps
+	do := func(g int, op LRUOp) porcupine.Operation {
+		var out linOut
+		call := atomic.AddInt64(&clock, 1)
+		switch op.Kind {
+		case "S":
+			cache.Store(c.gokey(op.Key), op.Val)
+		case "L":
+			v, ok := cache.Load(c.gokey(op.Key))
+			iv, _ := v.(int)
+			out = linOut{V: iv, OK: ok}
+		case "D":
+			cache.Delete(c.gokey(op.Key))
+		case "N":
+			out = linOut{N: cache.Len()}
+		case "P":
+			out = linOut{Dump: cache.Dump()}
+		}
+		ret := atomic.AddInt64(&clock, 1)
+		return porcupine.Operation{ClientId: g, Input: linIn{op.Kind, op.Key, op.Val}, Call: call, Output: out, Return: ret}
+	}
+	// sequential prefix (same recording: it is part of the history)
+	var prefix []porcupine.Operation
+	if p := ev.Guard(func() {
+		for _, op := range c.Setup {
+			prefix = append(prefix, do(G, op))
+		}
+	}); p != nil {
+		return nil, fmt.Sprintf("setup panicked: %v", p)
+	}
 	hist := make([][]porcupine.Operation, G)
 	panics := make([]interface{}, G)
 	start := make(chan struct{})
@@ -440,24 +471,7 @@ func runC10Lin(c *C10Case) ([]porcupine.Operation, string) {
 						runtime.Gosched()
 					}
 				}
-				var out linOut
-				call := atomic.AddInt64(&clock, 1)
-				switch op.Kind {
-				case "S":
-					cache.Store(c.gokey(op.Key), op.Val)
-				case "L":
-					v, ok := cache.Load(c.gokey(op.Key))
-					iv, _ := v.(int)
-					out = linOut{V: iv, OK: ok}
-				case "D":
-					cache.Delete(c.gokey(op.Key))
-				case "N":
-					out = linOut{N: cache.Len()}
-				case "P":
-					out = linOut{Dump: cache.Dump()}
-				}
-				ret := atomic.AddInt64(&clock, 1)
-				hist[g] = append(hist[g], porcupine.Operation{ClientId: g, Input: linIn{op.Kind, op.Key, op.Val}, Call: call, Output: out, Return: ret})
+				hist[g] = append(hist[g], do(g, op))
 			}
 		}(g)
 	}
@@ -473,9 +487,19 @@ func runC10Lin(c *C10Case) ([]porcupine.Operation, string) {
 			return nil, fmt.Sprintf("goroutine %d panicked: %v", g, p)
 		}
 	}
-	var all []porcupine.Operation
+	all := append([]porcupine.Operation(nil), prefix...)
 	for _, h := range hist {
 		all = append(all, h...)
+	}
+	// observation at quiescence, recorded as part of the history: the final state
+	// (order, membership, values, Len) must be explained by the same sequential order
+	if p := ev.Guard(func() {
+		all = append(all, do(G, LRUOp{Kind: "P"}), do(G, LRUOp{Kind: "N"}))
+		for _, k := range []string{"a", "b", "c"} {
+			all = append(all, do(G, LRUOp{Kind: "L", Key: k}))
+		}
+	}); p != nil {
+		return nil, fmt.Sprintf("observation at quiescence panicked: %v", p)
 	}
 	return all, ""
 }
@@ -587,12 +611,24 @@ func genC10Lin(t *rapid.T) *C10Case {
 		Cap:      rapid.IntRange(0, 3).Draw(t, "cap"),
 		Callback: rapid.Bool().Draw(t, "callback"),
 		Procs:    rapid.SampledFrom([]int{16, 4, 2}).Draw(t, "procs"),
-		Reps:     ev.Pick(6, 12),
+		Reps:     ev.Pick(12, 30),
 		NilKey:   rapid.IntRange(0, 3).Draw(t, "nilKey") == 0,
+	}
+	// sequential prefix: usually fills the cache, so the concurrent phase starts on a full cache
+	for i, n := 0, rapid.IntRange(0, 4).Draw(t, "nSetup"); i < n; i++ {
+		k := rapid.SampledFrom([]string{"a", "b", "c"}).Draw(t, "setupKey")
+		if rapid.IntRange(0, 3).Draw(t, "setupLoad") == 0 {
+			c.Setup = append(c.Setup, LRUOp{Kind: "L", Key: k})
+		} else {
+			c.Setup = append(c.Setup, LRUOp{Kind: "S", Key: k, Val: 900 + i})
+		}
 	}
 	G := rapid.IntRange(2, 4).Draw(t, "goroutines")
 	for g := 0; g < G; g++ {
 		n := rapid.IntRange(1, 5).Draw(t, "n")
+		if len(c.Setup) > 0 && rapid.Bool().Draw(t, "short") {
+			n = rapid.IntRange(1, 2).Draw(t, "nShort") // few operations right after the start line: they overlap
+		}
 		var ops []LRUOp
 		var ys []int
 		for i := 0; i < n; i++ {
@@ -679,7 +715,7 @@ func c10LinOnce(t ev.TB, c *C10Case, sub string) {
 	ev.Case(c10Key(c), nt, func() interface{} { return c })
 	if msg != "" {
 		ev.Fail(t, "C10", sub, map[string]interface{}{"mode": "lin", "cap": c.Cap, "callback": c.Callback, "gomaxprocs": c.Procs, "nilkey": c.NilKey,
-			"streams": c.Streams, "yields": c.Yields, "reps": 200, "recorded_history": bad}, "%s", msg)
+			"streams": c.Streams, "yields": c.Yields, "setup": c.Setup, "reps": 200, "recorded_history": bad}, "%s", msg)
 	}
 }
 
@@ -691,7 +727,7 @@ func TestC10(t *testing.T) {
 	})
 	t.Run("lin", func(t *testing.T) {
 		rapid.Check(t, func(t *rapid.T) {
-			for i := 0; i < 10; i++ {
+			for i := 0; i < 20; i++ {
 				c10LinOnce(t, genC10Lin(t), "linearizability")
 			}
 		})
